@@ -99,6 +99,35 @@ Theorem C02_no_residue : forall (A : Type) (F g self : Z) (n : packet A) (evs : 
 Proof. exact thm_no_residue. Qed.
 Print Assumptions C02_no_residue.
 
+(* the same when the fragments differ in their low flag bits: xb j are ARBITRARY bits OR-ed onto fragment j
+   on its way (session()/channelWrite set FlagChannel / FlagChannelEnd on whatever goes out next, a proxy sets
+   FlagProxy); only the Multi bit is excluded.  cluster.add (Packet.Belongs: both flag words non-zero, same ID,
+   Job and group) accepts them all; the original comes out with the bits of its non-empty fragments merged *)
+Theorem C02_reassemble_any_order_hop_flags : forall (A : Type) (F g self : Z) (n : packet A) (xb : nat -> Z) (evs : list (ev A)) (st0 : state A),
+  HeaderSize <= F -> 0 <= p_tags n -> F < size n -> nfrag F n <= 65535 -> addressed self n ->
+  (forall j, Z.testbit (xb j) 1 = false) ->
+  NoDup (map fst st0) -> lookup g st0 = None ->
+  Permutation (own_pkts g evs) (hop xb (split F g n)) ->
+  hd_error (own_pkts g evs) = hd_error (hop xb (split F g n)) ->
+  paced g evs = true ->
+  own_outs g evs (snd (run self st0 evs)) =
+    repeat ONone (Z.to_nat (nfrag F n - 1)) ++ [ODeliver (delivered_of (hop xb (split F g n)) n)] /\
+  lookup g (fst (run self st0 evs)) = None.
+Proof. exact thm_reassemble_hop_flags. Qed.
+Print Assumptions C02_reassemble_any_order_hop_flags.
+
+(* non-vacuity: FlagChannel on fragment 1, FlagChannelEnd on the empty fragment 2 *)
+Theorem C02_hop_flags_nonvacuous :
+  (forall j, Z.testbit (ExH.xb j) 1 = false) /\
+  map (fun f => f_bits (p_flags f)) (hop ExH.xb (split Ex.F Ex.gA Ex.nA)) = [5; 21; 37] /\
+  Permutation (own_pkts Ex.gA ExH.evs) (hop ExH.xb (split Ex.F Ex.gA Ex.nA)) /\
+  hd_error (own_pkts Ex.gA ExH.evs) = hd_error (hop ExH.xb (split Ex.F Ex.gA Ex.nA)) /\ paced Ex.gA ExH.evs = true /\
+  f_bits (p_flags (delivered_of (hop ExH.xb (split Ex.F Ex.gA Ex.nA)) Ex.nA)) = 20 /\
+  own_outs Ex.gA ExH.evs (snd (run 1 [] ExH.evs)) =
+    [ONone; ONone; ODeliver (delivered_of (hop ExH.xb (split Ex.F Ex.gA Ex.nA)) Ex.nA)].
+Proof. exact ExH.ok. Qed.
+Print Assumptions C02_hop_flags_nonvacuous.
+
 (* the full statement (no `hd_error` hypothesis) is false of the model (= the code): *)
 Theorem C02_reassemble_any_order_refuted : exists (F g self : Z) (n : packet Z) (evs : list (ev Z)),
   HeaderSize <= F /\ 0 <= p_tags n /\ F < size n /\ nfrag F n <= 65535 /\ addressed self n /\
